@@ -85,3 +85,729 @@ def cases(tier):
     return cs
 
 ASSUMPTIONS = ["AXILiteUpConverter slave side: AW/AR stability proved for every AXI4-Lite master; W stability proved for in-order masters only (W with/after its AW, one write address at a time) - for any legal master it is a finding"]
+
+# =========================================================================================================== 2a. AXI2Wishbone, direct
+def _burst_legal(W, addr, blen, bsize, btype, maxsize):
+    Z = lambda x: zx(x, W)
+    size_b = z3.BitVecVal(1, W) << Z(bsize); total = (Z(blen) + 1) * size_b
+    return z3.And(ule(bsize, maxsize), ule(btype, 2),
+                  z3.Implies(btype == K(2, 2), z3.And(z3.Or(blen == K(1, 8), blen == K(3, 8), blen == K(7, 8), blen == K(15, 8)), (Z(addr) & (size_b - 1)) == 0)),
+                  z3.Implies(btype == K(1, 2), z3.ULE((Z(addr) & z3.BitVecVal(4095, W)) + total - (Z(addr) & (size_b - 1)), z3.BitVecVal(4096, W))))
+def _burst_off(W, addr, blen, bsize, btype, n):
+    """AMBA A3.4.1: byte offset of beat n relative to the start address (FIXED 0, INCR n*size, WRAP inside the aligned container)"""
+    Z = lambda x: zx(x, W)
+    size_b = z3.BitVecVal(1, W) << Z(bsize); total = (Z(blen) + 1) * size_b
+    inc = Z(n) * size_b; base = Z(addr) & ~(total - 1)
+    wrapped = base + ((Z(addr) - base + inc) & (total - 1)) - Z(addr)
+    return z3.If(btype == K(0, 2), z3.BitVecVal(0, W), z3.If(btype == K(1, 2), inc, wrapped))
+
+ERR_A2W = ("AXI2Wishbone (AXI2AXILite + AXILite2Wishbone) answers with RESP_OKAY a burst whose Wishbone cycle was terminated with ack+err: neither inner bridge propagates errors "
+           "(same root causes as AXILite2Wishbone(err)/finding.err-ignored and AXI2AXILite(*)/finding.err.*)")
+
+def axi_master_inputs(m):
+    return [m.aw.valid] + pay(m.aw) + [m.w.valid, m.w.last] + pay(m.w) + [m.b.ready, m.ar.valid] + pay(m.ar) + [m.r.ready]
+
+def axi2wb_contract(h, d, m, wb, base, quick_limits, err_case=False):
+    """the AXI master port `m` of design `d` sees the abstract byte memory that sits behind the Wishbone port `wb` (classic cycles, word index = byte address // bytes per word);
+    everything is stated over the two outer ports; internal registers appear in hints only"""
+    V = h.v; F = lambda ep: fire(h, ep)
+    AW = len(m.aw.addr); DW = len(m.w.data); NB = DW // 8; SH = NB.bit_length() - 1; IDW = len(m.aw.id); W = max(24, AW + 1)
+    wsh = SH if wb.addressing == "word" else 0
+    MW = AW - SH                                                          # width of a memory word index
+    # ---- environment: AXI master
+    st_aw, _ = src_env(h, m.aw, "m.aw"); st_ar, _ = src_env(h, m.ar, "m.ar"); st_w, _ = src_env(h, m.w, "m.w")
+    p_wlast = h.prev("mwlast", V(m.w.last))
+    h.assume(z3.Implies(b(st_w), V(m.w.last) == p_wlast), "AXI channel source holds valid and payload until ready (W last flag)")
+    for ch in (m.aw, m.ar):
+        h.assume(z3.Implies(b(V(ch.valid)), _burst_legal(W, V(ch.addr), V(ch.len), V(ch.size), V(ch.burst), SH)),
+                 "burst requests are AXI-legal (size within the bus; WRAP: 2/4/8/16 beats, aligned start; INCR within a 4KB page)")
+        if quick_limits:
+            h.assume(z3.Implies(b(V(ch.valid)), z3.And(V(ch.burst) == K(1, 2), ule(V(ch.len), 3))), "quick tier: INCR bursts of 1..4 beats (all types and lengths in the thorough tier)")
+    # ---- environment: Wishbone slave = abstract byte memory
+    sreq = wbreq(h, wb); ack = z3.And(sreq, b(V(wb.ack)))
+    wblib.slave_legal(h, wb)
+    if err_case: h.assume(z3.Implies(b(V(wb.err)), b(V(wb.ack))), "err accompanies ack (slave terminates the cycle with ack+err as LiteX's Timeout and bridges do)")
+    else:        h.assume(z3.Not(b(V(wb.err))), "scenario restriction: the Wishbone slave does not terminate with err (error propagation: see the finding case)")
+    wr_ack = z3.And(ack, b(V(wb.we))); rd_ack = z3.And(ack, z3.Not(b(V(wb.we))))
+    wbword = z3.Extract(MW + (SH - wsh) - 1, SH - wsh, V(wb.adr)) if wsh == 0 else V(wb.adr)
+    LW = max(1, SH)
+    gw = h.const("gw", MW); gl = h.const("gl", LW)
+    mv = h.ghost("mv", 8)                                                 # content of the tracked byte of the memory behind the Wishbone port
+    h.ghost_next(mv, z3.If(z3.And(wr_ack, wbword == gw, sbit(V(wb.sel), gl, NB)), lane_of(V(wb.dat_w), gl, NB), mv))
+    h.assume(z3.Implies(z3.And(rd_ack, wbword == gw), lane_of(V(wb.dat_r), gl, NB) == mv), "the Wishbone slave is a byte memory: a read of the tracked word returns, in the tracked lane, the last enabled write to it")
+    # ---- specification state (AXI side)
+    mode = h.ghost("mode", 2)                                             # 0 idle, 1 read burst, 2 write burst
+    gaddr = h.ghost("gaddr", AW); glen = h.ghost("glen", 8); gsize = h.ghost("gsize", 3); gtype = h.ghost("gtype", 2); gid = h.ghost("gid", IDW)
+    na = h.ghost("na", 9); nr = h.ghost("nr", 9); nw = h.ghost("nw", 9)   # Wishbone cycles done / R beats delivered / W beats accepted, in the current burst
+    idle, rd, wr = mode == K(0, 2), mode == K(1, 2), mode == K(2, 2)
+    ar_f, aw_f, m_rf, m_bf, m_wf = F(m.ar), F(m.aw), F(m.r), F(m.b), F(m.w)
+    L9 = zx(glen, 9)
+    rd_done = z3.And(rd, m_rf, nr == L9); wr_done = z3.And(wr, m_bf)
+    h.ghost_next(mode, z3.If(idle, z3.If(ar_f, K(1, 2), z3.If(aw_f, K(2, 2), K(0, 2))), z3.If(z3.Or(rd_done, wr_done), K(0, 2), mode)))
+    for g, far, faw in ((gaddr, m.ar.addr, m.aw.addr), (glen, m.ar.len, m.aw.len), (gsize, m.ar.size, m.aw.size), (gtype, m.ar.burst, m.aw.burst), (gid, m.ar.id, m.aw.id)):
+        h.ghost_next(g, z3.If(z3.And(idle, ar_f), V(far), z3.If(z3.And(idle, aw_f), V(faw), g)))
+    start = z3.And(idle, z3.Or(ar_f, aw_f))
+    h.ghost_next(na, z3.If(start, K(0, 9), z3.If(ack, na + 1, na)))
+    h.ghost_next(nr, z3.If(start, K(0, 9), z3.If(m_rf, nr + 1, nr)))
+    h.ghost_next(nw, z3.If(start, K(0, 9), z3.If(m_wf, nw + 1, nw)))
+    h.assume(z3.Implies(z3.And(wr, b(V(m.w.valid))), b(V(m.w.last)) == (nw == L9)), "AXI master sends len+1 W beats, last on the final one")
+    mask = (1 << AW) - 1
+    def word_of(n_):
+        """memory word index addressed by beat n_ of the current burst (AMBA address of the beat, minus the bridge's base address)"""
+        a = z3.Extract(AW - 1, 0, zx(gaddr, W) + _burst_off(W, gaddr, glen, gsize, gtype, n_)) - K(base & mask, AW)
+        return z3.Extract(AW - 1, SH, a)
+    sv = h.ghost("sv", 8)                                                 # specified content of the tracked byte: last enabled write of the AXI master to it
+    hit_w = z3.And(wr, m_wf, word_of(nw) == gw, sbit(V(m.w.strb), gl, NB))
+    h.ghost_next(sv, z3.If(hit_w, lane_of(V(m.w.data), gl, NB), sv))
+    g_data = h.ghost("g_data", DW); h.ghost_next(g_data, z3.If(rd_ack, V(wb.dat_r), g_data))
+    g_err = h.ghost("g_err", 1); h.ghost_next(g_err, z3.If(start, K(0, 1), z3.If(z3.And(ack, b(V(wb.err))), K(1, 1), g_err)))
+    if err_case:
+        h.finding("finding.err-ignored", z3.And(z3.Implies(z3.And(b(V(m.b.valid)), b(g_err)), V(m.b.resp) != K(0, 2)), z3.Implies(z3.And(b(V(m.r.valid)), b(g_err), nr == L9), V(m.r.resp) != K(0, 2))), ERR_A2W)
+        h.cover("cover.err", z3.And(b(V(m.b.valid)), b(g_err)), depth=6)
+        h.bmc_depth = 8
+        return
+    # ---- postconditions: flat byte memory towards the AXI master
+    h.ensure("ens.mem.read", z3.Implies(z3.And(b(V(m.r.valid)), word_of(nr) == gw), z3.And(rd, lane_of(V(m.r.data), gl, NB) == sv)))          # every byte read is the last enabled write to it
+    h.ensure("ens.mem.write-before-b", z3.Implies(b(V(m.b.valid)), mv == sv))                                                                   # when the burst is answered all its enabled bytes are in the memory
+    h.ensure("ens.mem.read-sees-writes", z3.Implies(z3.And(rd_ack, wbword == gw), mv == sv))                                                    # and a read never overtakes a write
+    h.ensure("ens.mem.only-selected", z3.Implies(z3.And(wr_ack, wbword == gw, sbit(V(wb.sel), gl, NB)), hit_w))                                 # a byte of the memory is written only by an enabled byte of a W beat addressed to it
+    # ---- postconditions: one Wishbone cycle per beat, at the beat's address, with the beat's data; responses
+    h.ensure("ens.wb.write", z3.Implies(z3.And(sreq, b(V(wb.we))), z3.And(wr, b(V(m.w.valid)), z3.ULE(nw, L9), wbword == word_of(nw), V(wb.sel) == V(m.w.strb), V(wb.dat_w) == V(m.w.data))))
+    h.ensure("ens.wb.read", z3.Implies(z3.And(sreq, z3.Not(b(V(wb.we)))), z3.And(rd, z3.ULE(na, L9), na == nr, wbword == word_of(na), V(wb.sel) == K(2**NB - 1, NB))))
+    h.ensure("ens.w-consumed", m_wf == wr_ack)                                                                                                # each W beat is performed exactly once, when it is accepted
+    h.ensure("ens.cyc=stb", V(wb.cyc) == V(wb.stb))
+    h.ensure("ens.accept", z3.And(z3.Implies(z3.Or(ar_f, aw_f), idle), z3.Not(z3.And(ar_f, aw_f))))
+    h.ensure("ens.r", z3.Implies(b(V(m.r.valid)), z3.And(rd, na == nr + 1, V(m.r.data) == g_data, V(m.r.id) == gid, b(V(m.r.last)) == (nr == L9), z3.ULE(nr, L9), V(m.r.resp) == K(0, 2))))
+    h.ensure("ens.b", z3.Implies(b(V(m.b.valid)), z3.And(wr, nw == L9 + 1, na == L9 + 1, V(m.b.id) == gid, V(m.b.resp) == K(0, 2))))          # one B per burst, after all its beats were written
+    h.ensure("ens.no-b-in-read", z3.Implies(z3.Not(wr), z3.Not(b(V(m.b.valid)))))
+    wbs = [wb.adr, wb.dat_w, wb.sel, wb.we]
+    h.ensure_seq("ens.wb_hold", lambda at: z3.Implies(at(z3.And(sreq, z3.Not(b(V(wb.ack)))), 0), z3.And(at(sreq, 1), *[at(V(s_), 1) == at(V(s_), 0) for s_ in wbs])))
+    src_guarantee(h, m.r, "m.r"); src_guarantee(h, m.b, "m.b")
+    stalled_r = z3.And(b(V(m.r.valid)), z3.Not(b(V(m.r.ready))))
+    h.ensure_seq("ens.stable.m.r.last", lambda at: z3.Implies(at(stalled_r, 0), at(V(m.r.last), 1) == at(V(m.r.last), 0)))
+    slave_coop = z3.Or(z3.Not(sreq), b(V(wb.ack)))
+    h.respond("resp.rd.beat", z3.And(b(V(m.r.ready)), slave_coop), z3.Or(rd_ack, m_rf), 4, start=rd)
+    h.respond("resp.wr.beat", z3.And(b(V(m.b.ready)), slave_coop, z3.Implies(z3.ULE(nw, L9), b(V(m.w.valid)))), z3.Or(wr_ack, m_bf), 4, start=wr)
+    h.respond("resp.accept", z3.BoolVal(True), z3.Or(ar_f, aw_f), 2, start=z3.And(idle, z3.Or(b(V(m.ar.valid)), b(V(m.aw.valid)))))
+    # ---- invariants from the code of the two inner bridges
+    h.hint("mem", mv == sv)
+    h.hint("na<=len+1", z3.ULE(na, L9 + 1))
+    h.hint("rd.nr", z3.Implies(rd, z3.And(z3.ULE(nr, na), z3.ULE(na, nr + 1), z3.ULE(nr, L9))))
+    h.hint("wr.nw", z3.Implies(wr, z3.And(nw == na)))
+    h.hint("legal", z3.Implies(z3.Not(idle), _burst_legal(W, gaddr, glen, gsize, gtype, SH)))
+    if quick_limits: h.hint("quick", z3.Implies(z3.Not(idle), z3.And(gtype == K(1, 2), ule(glen, 3))))
+    h.hint("g_data", z3.Implies(z3.And(rd, na == nr + 1, word_of(nr) == gw), lane_of(g_data, gl, NB) == sv))
+    try:
+        a2l = _subs(d, AXI2AXILite)[0]; l2w = _subs(d, AXILite2Wishbone)[0]
+        st, enc = a2l.fsm.state, a2l.fsm.encoding; S = lambda n_: eqc(V(st), enc[n_])
+        st2, enc2 = l2w.fsm.state, l2w.fsm.encoding; T = lambda n_: eqc(V(st2), enc2[n_])
+        buf = L(a2l, "ax_buffer"); b2b = L(a2l, "ax_burst2beat"); cd = L(a2l, "_cmd_done")
+        bc, bo = L(b2b, "beat_count"), L(b2b, "beat_offset"); bs = buf.source
+        h.hint("st", ult(V(st), len(enc))); h.hint("st2", ult(V(st2), len(enc2)))
+        h.hint("idle", S("IDLE") == idle); h.hint("read", S("READ") == rd); h.hint("write", z3.Or(S("WRITE"), S("WRITE-RESP")) == wr)
+        h.hint("buf", b(V(bs.valid)) == z3.Not(idle))
+        h.hint("buf.req", z3.Implies(z3.Not(idle), z3.And(V(bs.addr) == gaddr, V(bs.len) == glen, V(bs.size) == gsize, V(bs.burst) == gtype, V(bs.id) == gid)))
+        nmin = z3.If(z3.ULE(na, L9), na, L9)
+        h.hint("count", z3.Implies(z3.Not(idle), zx(V(bc), 9) == nmin))
+        h.hint("offset", z3.Implies(z3.Not(idle), sx(V(bo), W) == _burst_off(W, gaddr, glen, gsize, gtype, nmin)))
+        h.hint("idle.b2b", z3.Implies(idle, z3.And(V(bc) == K(0, 8), V(bo) == K(0, V(bo).size()))))
+        h.hint("cmd_done", z3.Implies(z3.Not(idle), b(V(cd)) == (na == L9 + 1)))
+        h.hint("wresp", z3.Implies(wr, S("WRITE-RESP") == (nw == L9 + 1)))
+        h.hint("l2w.idle", z3.Implies(idle, T("IDLE")))
+        h.hint("l2w.doread", z3.Implies(T("DO-READ"), z3.And(rd, na == nr, z3.ULE(na, L9))))
+        h.hint("l2w.sendr", T("SEND-READ-RESPONSE") == z3.And(rd, na == nr + 1))
+        h.hint("l2w.dowrite", z3.Implies(T("DO-WRITE"), z3.And(wr, z3.ULE(na, L9))))
+        h.hint("l2w.sendb", z3.Implies(T("SEND-WRITE-RESPONSE"), z3.And(wr, z3.UGE(na, K(1, 9)))))
+        h.hint("l2w.data", z3.Implies(T("SEND-READ-RESPONSE"), V(L(l2w, "_data")) == g_data))
+    except (AttributeError, KeyError, TypeError, IndexError) as e: h.note = f"hints skipped: {e!r}"; h.use_auto = True
+    h.cover("cover.rd.burst", z3.And(rd_done, glen == K(2, 8), word_of(K(1, 9)) == gw), depth=12)
+    h.cover("cover.wr.burst", z3.And(wr_done, glen == K(1, 8)), depth=10)
+    h.cover("cover.readback", z3.And(m_rf, word_of(nr) == gw, sv != K(0, 8)), depth=10)
+    h.bmc_depth = 12
+
+def c_axi2wb(base=0x400, addressing="word", dw=32, limits=True, err_case=False):
+    AW, IDW = 16, 2
+    m = AXIInterface(data_width=dw, address_width=AW, id_width=IDW); wb = wishbone.Interface(data_width=dw, address_width=AW, addressing=addressing)
+    d = mk(AXI2Wishbone, m, wb, base)
+    h = HwCheck(f"AXI2Wishbone.mem(base={base:#x},{addressing},dw={dw}{',err' if err_case else ''})", d, axi_master_inputs(m) + [wb.ack, wb.dat_r, wb.err])
+    axi2wb_contract(h, d, m, wb, base, limits, err_case)
+    h.functions = ["litex.soc.interconnect.axi.axi_full_to_wishbone.AXI2Wishbone.__init__", "litex.soc.interconnect.axi.axi_full_to_axi_lite.AXI2AXILite.__init__ (flattened)",
+                   "litex.soc.interconnect.axi.axi_lite_to_wishbone.AXILite2Wishbone.__init__ (flattened)", "litex.soc.interconnect.axi.axi_full.AXIBurst2Beat.__init__ (flattened)"]
+    return h
+
+_cases1 = cases
+def cases(tier):
+    cs = _cases1(tier)
+    cs += [VCase("AXI2Wishbone.mem(base=0x400,word)", c_axi2wb, 0x400, "word", 32, False, timeout=900), VCase("AXI2Wishbone.mem(base=0,byte)", c_axi2wb, 0, "byte", 32, False, timeout=900),
+           VCase("AXI2Wishbone.mem(err)", c_axi2wb, 0, "word", 32, False, True)]
+    if tier == "thorough":
+        cs += [VCase("AXI2Wishbone.mem(base=0x800,word,dw=64)", c_axi2wb, 0x800, "word", 64, False, timeout=1800)]
+    return cs
+ASSUMPTIONS += ["AXI2Wishbone direct contract: AXI master holds channel payloads, issues AXI-legal bursts (FIXED/INCR/WRAP, any legal length and size) and len+1 W beats with last on the final one; the Wishbone slave answers only presented cycles, "
+                "is a byte memory at the tracked byte, and does not raise err (error propagation is a finding case)"]
+
+# =========================================================================================================== 2b. Wishbone2AXI, direct
+W2A_BASE = ("Wishbone2AXILite (and Wishbone2AXI built on it) subtracts `base_address//4` from the Wishbone address whatever the bus geometry: that is the byte offset only for a 32-bit word-addressed "
+            "Wishbone bus; with a 64-bit bus the AXI address is lowered by 2*base_address, with a byte-addressed bus by base_address/4")
+
+def axi_slave_inputs(a):
+    return [a.aw.ready, a.w.ready, a.b.valid] + pay(a.b) + [a.ar.ready, a.r.valid, a.r.last] + pay(a.r)
+
+def wb2axi_contract(h, d, wb, a, base, only_address_finding=False):
+    """the Wishbone master port `wb` sees the abstract byte memory behind the AXI port `a` (single-beat transfers)"""
+    V = h.v; F = lambda ep: fire(h, ep)
+    AW = len(a.aw.addr); DW = len(a.w.data); NB = DW // 8; SH = NB.bit_length() - 1; MW = AW - SH; LW = max(1, SH)
+    wsh = SH if wb.addressing == "word" else 0
+    pend = wblib.master_holds(h, wb); hd = h.held[""]
+    rq = wbreq(h, wb); we = b(V(wb.we)); wack = b(V(wb.ack)); werr = b(V(wb.err))
+    byte_of = lambda adr: (zx(adr, AW) << wsh) - K(base & ((1 << AW) - 1), AW) if adr.size() <= AW else None
+    baddr = byte_of(V(wb.adr))                                             # byte address of the current cycle in the slave's address space
+    word = z3.Extract(AW - 1, SH, baddr)
+    # ---- environment: abstract AXI slave (byte memory), single outstanding by construction of the requests it receives
+    src_env(h, a.b, "a.b"); src_env(h, a.r, "a.r")
+    aw_got = h.ghost("aw_got", 1); w_got = h.ghost("w_got", 1); ar_got = h.ghost("ar_got", 1)
+    endw, endr = F(a.b), F(a.r)
+    h.ghost_next(aw_got, z3.If(endw, K(0, 1), z3.If(F(a.aw), K(1, 1), aw_got)))
+    h.ghost_next(w_got, z3.If(endw, K(0, 1), z3.If(F(a.w), K(1, 1), w_got)))
+    h.ghost_next(ar_got, z3.If(endr, K(0, 1), z3.If(F(a.ar), K(1, 1), ar_got)))
+    h.assume(z3.Implies(b(V(a.b.valid)), z3.And(b(aw_got), b(w_got))), "AXI slave sends B only after it has received AW and W")
+    h.assume(z3.Implies(b(V(a.r.valid)), b(ar_got)), "AXI slave sends R only after it has received AR")
+    s_aw = h.ghost("s_aw", AW); s_ar = h.ghost("s_ar", AW); s_wd = h.ghost("s_wd", DW); s_ws = h.ghost("s_ws", NB)
+    h.ghost_next(s_aw, z3.If(F(a.aw), V(a.aw.addr), s_aw)); h.ghost_next(s_ar, z3.If(F(a.ar), V(a.ar.addr), s_ar))
+    h.ghost_next(s_wd, z3.If(F(a.w), V(a.w.data), s_wd)); h.ghost_next(s_ws, z3.If(F(a.w), V(a.w.strb), s_ws))
+    if only_address_finding:
+        ok = lambda ch: z3.Implies(b(V(ch.valid)), V(ch.addr) == baddr)
+        h.finding("finding.base-offset", z3.And(ok(a.aw), ok(a.ar)), W2A_BASE)
+        h.cover("cover.aw", b(V(a.aw.valid)), depth=3)
+        h.bmc_depth = 4
+        return
+    gw = h.const("gw", MW); gl = h.const("gl", LW)
+    mv = h.ghost("mv", 8)
+    slave_wr = z3.And(endw, V(a.b.resp) == K(0, 2), z3.Extract(AW - 1, SH, s_aw) == gw, sbit(s_ws, gl, NB))
+    mv_next = z3.If(slave_wr, lane_of(s_wd, gl, NB), mv)
+    h.ghost_next(mv, mv_next)
+    h.assumption_notes.append("the AXI slave is a byte memory: a write takes effect when its OKAY response is accepted (a write answered with an error leaves the memory unchanged); "
+                              "read data accepted for the tracked word carries, in the tracked lane, the last such write")
+    h.assume(z3.Implies(z3.And(endr, V(a.r.resp) == K(0, 2), z3.Extract(AW - 1, SH, s_ar) == gw), lane_of(V(a.r.data), gl, NB) == mv))
+    # ---- specification state (Wishbone side)
+    sv = h.ghost("sv", 8)
+    ok_ack = z3.And(rq, wack, z3.Not(werr))
+    hit_w = z3.And(ok_ack, we, word == gw, sbit(V(wb.sel), gl, NB))
+    sv_next = z3.If(hit_w, lane_of(V(wb.dat_w), gl, NB), sv)
+    h.ghost_next(sv, sv_next)
+    g_bad = h.ghost("g_bad", 1)
+    h.ghost_next(g_bad, bv1(z3.Or(z3.And(endw, V(a.b.resp) != K(0, 2)), z3.And(endr, V(a.r.resp) != K(0, 2)))))
+    # ---- postconditions: flat byte memory towards the Wishbone master
+    h.ensure("ens.mem.read", z3.Implies(z3.And(ok_ack, z3.Not(we), word == gw), lane_of(V(wb.dat_r), gl, NB) == sv))
+    h.ensure("ens.mem.write", z3.Implies(z3.And(ok_ack, we), mv_next == sv_next))                                  # an acknowledged write is in the memory
+    h.ensure("ens.mem.read-sees-writes", z3.Implies(b(V(a.ar.valid)), mv == sv))
+    h.ensure("ens.mem.only-selected", z3.Implies(slave_wr, hit_w))
+    # ---- postconditions: exactly one single-beat, full-width AXI transfer per cycle, at the cycle's byte address, with its data and strobes
+    one = lambda ch: z3.And(V(ch.addr) == baddr, V(ch.len) == K(0, 8), V(ch.size) == K(SH, 3), ule(V(ch.burst), 2), V(ch.lock) == K(0, V(ch.lock).size()))
+    h.ensure("ens.aw", z3.Implies(b(V(a.aw.valid)), z3.And(rq, we, z3.Not(b(aw_got)), one(a.aw))))
+    h.ensure("ens.w", z3.Implies(b(V(a.w.valid)), z3.And(rq, we, z3.Not(b(w_got)), V(a.w.data) == V(wb.dat_w), V(a.w.strb) == V(wb.sel), b(V(a.w.last)))))
+    h.ensure("ens.ar", z3.Implies(b(V(a.ar.valid)), z3.And(rq, z3.Not(we), z3.Not(b(ar_got)), one(a.ar))))
+    h.ensure("ens.ack.ok", z3.Implies(z3.And(wack, z3.Not(werr)), z3.And(rq, z3.Or(z3.And(we, endw, V(a.b.resp) == K(0, 2)), z3.And(z3.Not(we), endr, V(a.r.resp) == K(0, 2), V(wb.dat_r) == V(a.r.data))))))
+    h.ensure("ens.ack-only-if-req", z3.Implies(z3.Or(wack, werr), rq))
+    h.ensure("ens.err", z3.Implies(b(g_bad), z3.And(wack, werr)))                                                  # error responses propagated (in the cycle after the response)
+    h.ensure("ens.err.only", z3.Implies(werr, b(g_bad)))
+    h.ensure("ens.resp-consumed", z3.And(z3.Implies(endw, z3.And(rq, we)), z3.Implies(endr, z3.And(rq, z3.Not(we)))))
+    for ep, nm in ((a.aw, "a.aw"), (a.w, "a.w"), (a.ar, "a.ar")): src_guarantee(h, ep, nm)
+    st_w = z3.And(b(V(a.w.valid)), z3.Not(b(V(a.w.ready))))
+    h.ensure_seq("ens.stable.a.w.last", lambda at: z3.Implies(at(st_w, 0), at(V(a.w.last), 1) == at(V(a.w.last), 0)))
+    h.respond("resp.write", z3.And(rq, we, b(V(a.aw.ready)), b(V(a.w.ready)), z3.Or(b(V(a.b.valid)), z3.Not(z3.And(b(aw_got), b(w_got))))), wack, 5)
+    h.respond("resp.read", z3.And(rq, z3.Not(we), b(V(a.ar.ready)), z3.Or(b(V(a.r.valid)), z3.Not(b(ar_got)))), wack, 5)
+    # ---- invariants from the code
+    h.hint("mem", mv == sv)
+    try:
+        br = _subs(d, Wishbone2AXILite)[0]
+        st, enc = br.fsm.state, br.fsm.encoding; cd_, dd_ = L(br, "_cmd_done"), L(br, "_data_done")
+        inW, inR, inE, inI = eqc(V(st), enc["WRITE"]), eqc(V(st), enc["READ"]), eqc(V(st), enc["ERROR"]), eqc(V(st), enc["IDLE"])
+        hbaddr = byte_of(hd.adr)
+        h.hint("st<n", ult(V(st), len(enc)))
+        h.hint("W", z3.Implies(inW, z3.And(V(cd_) == aw_got, V(dd_) == w_got, ar_got == K(0, 1), b(hd.pend), hd.we == K(1, 1))))
+        h.hint("R", z3.Implies(inR, z3.And(V(cd_) == ar_got, aw_got == K(0, 1), w_got == K(0, 1), b(hd.pend), hd.we == K(0, 1))))
+        h.hint("IE", z3.Implies(z3.Or(inI, inE), z3.And(aw_got == K(0, 1), w_got == K(0, 1), ar_got == K(0, 1))))
+        h.hint("Epend", z3.Implies(inE, b(hd.pend)))
+        h.hint("gbad", b(g_bad) == inE)
+        h.hint("s_aw", z3.Implies(b(aw_got), s_aw == hbaddr)); h.hint("s_ar", z3.Implies(b(ar_got), s_ar == hbaddr))
+        h.hint("s_w", z3.Implies(b(w_got), z3.And(s_wd == hd.dat_w, s_ws == hd.sel)))
+    except (AttributeError, KeyError, TypeError, IndexError) as e: h.note = f"hints skipped: {e!r}"
+    h.use_auto = True
+    h.cover("cover.wr", z3.And(wack, we, z3.Not(werr)), depth=6); h.cover("cover.err", werr, depth=7)
+    h.cover("cover.readback", z3.And(ok_ack, z3.Not(we), word == gw, sv != K(0, 8)), depth=10)
+    h.bmc_depth = 10
+
+def c_wb2axi(dw=32, base=0x400, addressing="word", only_address_finding=False):
+    AW = 16
+    wb = wishbone.Interface(data_width=dw, address_width=AW, addressing=addressing); a = AXIInterface(data_width=dw, address_width=AW, id_width=2)
+    d = mk(Wishbone2AXI, wb, a, base)
+    h = HwCheck(f"Wishbone2AXI.mem(dw={dw},base={base:#x},{addressing})", d, wblib.m_inputs(wb) + axi_slave_inputs(a))
+    wb2axi_contract(h, d, wb, a, base, only_address_finding)
+    h.functions = ["litex.soc.interconnect.axi.axi_full_to_wishbone.Wishbone2AXI.__init__", "litex.soc.interconnect.axi.axi_lite_to_wishbone.Wishbone2AXILite.__init__ (flattened)",
+                   "litex.soc.interconnect.axi.axi_full_to_axi_lite.AXILite2AXI.__init__ (flattened)"]
+    return h
+
+_cases2 = cases
+def cases(tier):
+    cs = _cases2(tier)
+    cs += [VCase("Wishbone2AXI.mem(32,base=0x400,word)", c_wb2axi, 32, 0x400, "word"), VCase("Wishbone2AXI.mem(64,base=0,word)", c_wb2axi, 64, 0, "word"), VCase("Wishbone2AXI.mem(32,base=0,byte)", c_wb2axi, 32, 0, "byte"),
+           VCase("Wishbone2AXI.base(64,base=0x400,word)", c_wb2axi, 64, 0x400, "word", True), VCase("Wishbone2AXI.base(32,base=0x400,byte)", c_wb2axi, 32, 0x400, "byte", True)]
+    return cs
+ASSUMPTIONS += ["Wishbone2AXI direct contract: classic Wishbone master holding its request; AXI slave answers B after AW and W, R after AR, holds responses, is a byte memory at the tracked byte whose writes take effect with the OKAY response"]
+
+# =========================================================================================================== 3. configurations that were never built
+SRAM_NARROW = ("AXILiteSRAM accepts a Memory narrower than the bus (assert mem.width <= bus_data_width) but then indexes port.we for every byte of the BUS: "
+               "for a writable narrower memory the constructor raises IndexError instead of building the memory")
+
+def c_axilsram_cfg(depth=4, read_only=False, init=None, memarg=False):
+    """AXILiteSRAM as a flat byte memory (symbolic-address method) in the configurations SoC.add_ram uses: ROM (read_only), initial contents, a prebuilt Memory"""
+    from migen import Memory
+    ax = AXILiteInterface(data_width=32, address_width=32)
+    if memarg:
+        mobj = Memory(32, depth, init=init)
+        if read_only: mobj.bus_read_only = True                     # the attribute SoC.add_ram-style callers set on a prebuilt ROM (read_only argument left at None)
+        d = mk(AXILiteSRAM, mobj, bus=ax)
+    else:
+        d = mk(AXILiteSRAM, depth * 4, read_only=read_only, init=init, bus=ax)
+    h = HwCheck(f"AXILiteSRAM({depth}x32,ro={read_only},init={'yes' if init else 'no'},{'Memory' if memarg else 'size'})", d, master_side_inputs(ax))
+    V = h.v
+    for ch in ("aw", "w", "ar"): src_env(h, getattr(ax, ch), ch)
+    AW = (depth - 1).bit_length()
+    mem = h.ts.mems[d.mem]
+    gw = h.const("gw", AW); gl = h.const("gl", 2)
+    if init:
+        iv = K(0, 8)
+        for w_ in range(depth):
+            for l_ in range(4):
+                val = ((init[w_] if w_ < len(init) else 0) >> (8 * l_)) & 0xff
+                iv = z3.If(z3.And(gw == K(w_, AW), gl == K(l_, 2)), K(val, 8), iv)
+    else: iv = 0
+    gv = h.ghost("gv", 8, iv)
+    def memrd(a):
+        r = V(mem[depth - 1])
+        for j in reversed(range(depth - 1)): r = z3.If(a == K(j, AW), V(mem[j]), r)
+        return r
+    F = lambda ep: fire(h, ep)
+    awf, wf, arf, rf, bf = F(ax.aw), F(ax.w), F(ax.ar), F(ax.r), F(ax.b)
+    wadr = h.ghost("wadr", AW); aw_first = h.ghost("aw_first", 1)
+    cur_wadr = z3.If(b(aw_first), wadr, z3.Extract(AW + 1, 2, V(ax.aw.addr)))
+    h.ghost_next(aw_first, z3.If(z3.And(awf, z3.Not(wf)), K(1, 1), z3.If(wf, K(0, 1), aw_first)))
+    h.ghost_next(wadr, z3.If(z3.And(awf, z3.Not(wf)), z3.Extract(AW + 1, 2, V(ax.aw.addr)), wadr))
+    hit_w = z3.And(wf, cur_wadr == gw, sbit(V(ax.w.strb), gl, 4)) if not read_only else z3.BoolVal(False)      # a ROM ignores writes (they are still answered)
+    gv_next = z3.If(hit_w, lane_of(V(ax.w.data), gl, 4), gv)
+    h.ghost_next(gv, gv_next)
+    rd_tracked = h.ghost("rd_tracked", 1); rd_val = h.ghost("rd_val", 8)
+    h.ghost_next(rd_tracked, z3.If(arf, bv1(z3.Extract(AW + 1, 2, V(ax.ar.addr)) == gw), z3.If(rf, K(0, 1), rd_tracked)))
+    h.ghost_next(rd_val, z3.If(arf, gv, rd_val))
+    owe_b = h.ghost("owe_b", 1); owe_r = h.ghost("owe_r", 1)
+    h.ghost_next(owe_b, z3.If(wf, K(1, 1), z3.If(bf, K(0, 1), owe_b))); h.ghost_next(owe_r, z3.If(arf, K(1, 1), z3.If(rf, K(0, 1), owe_r)))
+    h.hint("mem", lane_of(memrd(gw), gl, 4) == gv)
+    try:
+        st, enc = d.fsm.state, d.fsm.encoding
+        for cand in [x for x in h.ts.state if x.nbits == AW]:
+            h.hint(f"latch.adr{cand.duid}", z3.Implies(z3.And(eqc(V(st), enc["LATCH-READ-RESPONSE"]), b(rd_tracked)), V(cand) == gw))
+            h.hint(f"wait.adr{cand.duid}", z3.Implies(eqc(V(st), enc["WAIT-FOR-WRITE-DATA"]), V(cand) == wadr))
+        for cand in [x for x in h.ts.state if x.nbits == 32 and x not in mem]:
+            h.hint(f"send.dat{cand.duid}", z3.Implies(z3.And(eqc(V(st), enc["SEND-READ-RESPONSE"]), b(rd_tracked)), lane_of(V(cand), gl, 4) == rd_val))
+            h.hint(f"latch.dat{cand.duid}", z3.Implies(z3.And(eqc(V(st), enc["LATCH-READ-RESPONSE"]), b(rd_tracked)), lane_of(V(cand), gl, 4) == rd_val))      # READ_FIRST port: registered read data
+        h.hint("owe_r.st", b(owe_r) == z3.Or(eqc(V(st), enc["LATCH-READ-RESPONSE"]), eqc(V(st), enc["SEND-READ-RESPONSE"])))
+        h.hint("owe_b.st", b(owe_b) == eqc(V(st), enc["SEND-WRITE-RESPONSE"]))
+        h.hint("aw_first.st", b(aw_first) == eqc(V(st), enc["WAIT-FOR-WRITE-DATA"]))
+        h.hint("st<n", ult(V(st), len(enc)))
+    except (AttributeError, KeyError, TypeError): pass
+    h.hint("rd_val=gv", z3.Implies(b(owe_r), rd_val == gv))
+    h.use_auto = True
+    h.ensure("ens.read", z3.Implies(z3.And(b(V(ax.r.valid)), b(rd_tracked)), lane_of(V(ax.r.data), gl, 4) == rd_val))
+    h.ensure("ens.write", lane_of(h.primed(memrd(gw)), gl, 4) == gv_next)
+    if read_only: h.ensure("ens.ro", lane_of(h.primed(memrd(gw)), gl, 4) == lane_of(memrd(gw), gl, 4))
+    if init or read_only: h.ensure("ens.init-kept", z3.Implies(z3.BoolVal(bool(read_only)), gv == (iv if not isinstance(iv, int) else K(iv, 8))))      # a ROM returns its initial contents for ever
+    h.ensure("ens.rvalid", z3.Implies(b(V(ax.r.valid)), b(owe_r))); h.ensure("ens.bvalid", z3.Implies(b(V(ax.b.valid)), b(owe_b)))
+    h.ensure("ens.w_needs_aw", z3.Implies(wf, z3.Or(awf, b(aw_first))))
+    h.ensure("ens.resp_ok", z3.And(z3.Implies(b(V(ax.r.valid)), V(ax.r.resp) == K(0, 2)), z3.Implies(b(V(ax.b.valid)), V(ax.b.resp) == K(0, 2))))
+    src_guarantee(h, ax.b, "b"); src_guarantee(h, ax.r, "r")
+    h.respond("resp.read", z3.And(b(V(ax.ar.valid)), z3.Not(b(V(ax.aw.valid))), b(V(ax.r.ready)), b(V(ax.b.ready)), z3.Implies(b(aw_first), b(V(ax.w.valid)))), rf, 7)
+    h.respond("resp.write", z3.And(b(V(ax.aw.valid)), b(V(ax.w.valid)), z3.Not(b(V(ax.ar.valid))), b(V(ax.r.ready)), b(V(ax.b.ready))), bf, 5)
+    h.cover("cover.rd", z3.And(rf, b(rd_tracked)), depth=6)
+    if init: h.cover("cover.rd.init", z3.And(rf, b(rd_tracked), rd_val != K(0, 8), z3.Not(b(owe_b))), depth=4)
+    if read_only: h.cover("cover.wr-answered", bf, depth=4)
+    h.bmc_depth = 8; h.bmc_time = 40; h.cosim_cycles = 12
+    h.functions = ["litex.soc.interconnect.axi.axi_lite.AXILiteSRAM.__init__", "litex.soc.interconnect.axi.axi_lite.axi_lite_to_simple"]
+    return h
+
+def c_axilsram_narrow():
+    """a Memory narrower than the bus is admitted by the constructor's own assertion: it has to elaborate"""
+    import time, traceback
+    from migen import Memory
+    t0 = time.time()
+    ax = AXILiteInterface(data_width=32, address_width=32)
+    try:
+        mk(AXILiteSRAM, Memory(16, 4), bus=ax); st, info = PROVED, "elaborates"
+    except AssertionError as e: st, info = OK, "refused by an assertion"
+    except Exception as e:
+        tb = traceback.extract_tb(e.__traceback__)[-1]; tb2 = [t for t in traceback.extract_tb(e.__traceback__) if "/litex/" in t.filename]
+        st, info = VIOLATED, f"{type(e).__name__} at {(tb2[-1] if tb2 else tb).filename.split('/litex/')[-1]}:{(tb2[-1] if tb2 else tb).lineno} ({(tb2[-1] if tb2 else tb).line})"
+    r = res("finding.narrow-memory-elaborates", "finding-witness", st, time.time() - t0, "native", info=info, what=SRAM_NARROW, replay="tools/replay_axilsram_narrow_memory.py")
+    return dict(results=[r], functions=["litex.soc.interconnect.axi.axi_lite.AXILiteSRAM.__init__ (Memory narrower than the bus)"], assumptions=[])
+
+def c_axil2axi_w(dw=64, burst_type="INCR"):
+    AW = 16; SH = (dw // 8).bit_length() - 1
+    s_ = AXILiteInterface(data_width=dw, address_width=AW); a = AXIInterface(data_width=dw, address_width=AW, id_width=2)
+    class Top(LiteXModule):
+        def __init__(self): self.bridge = AXILite2AXI(s_, a, write_id=3, read_id=2, prot=1, burst_type=burst_type)
+    d = mk(Top)
+    h = HwCheck(f"AXILite2AXI(dw={dw},{burst_type})", d, master_side_inputs(s_) + axi_slave_inputs(a))
+    V = h.v
+    bt = {"FIXED": 0, "INCR": 1, "WRAP": 2}[burst_type]
+    for ch, idv in (("aw", 3), ("ar", 2)):
+        f, t = getattr(s_, ch), getattr(a, ch)
+        h.ensure(f"ens.{ch}", z3.And(V(t.valid) == V(f.valid), V(f.ready) == V(t.ready), V(t.addr) == V(f.addr), V(t.len) == K(0, 8), V(t.size) == K(SH, 3),
+                                     V(t.burst) == K(bt, 2), V(t.id) == K(idv, 2), V(t.lock) == K(0, V(t.lock).size()), V(t.prot) == K(1, 3)))     # one beat of the FULL bus width (size = log2(bytes per word)) at the same address
+    h.ensure("ens.w", z3.And(V(a.w.valid) == V(s_.w.valid), V(s_.w.ready) == V(a.w.ready), V(a.w.data) == V(s_.w.data), V(a.w.strb) == V(s_.w.strb), b(V(a.w.last))))
+    h.ensure("ens.b", z3.And(V(s_.b.valid) == V(a.b.valid), V(a.b.ready) == V(s_.b.ready), V(s_.b.resp) == V(a.b.resp)))
+    h.ensure("ens.r", z3.And(V(s_.r.valid) == V(a.r.valid), V(a.r.ready) == V(s_.r.ready), V(s_.r.resp) == V(a.r.resp), V(s_.r.data) == V(a.r.data)))
+    h.cover("cover.rd", z3.And(b(V(a.ar.valid)), b(V(a.ar.ready))), depth=2)
+    h.functions = ["litex.soc.interconnect.axi.axi_full_to_axi_lite.AXILite2AXI.__init__"]
+    return h
+
+def c_axil_conv1(dw=32):
+    """AXILiteConverter with equal widths: a wire (every channel forwarded unchanged, in both directions)"""
+    m = AXILiteInterface(data_width=dw, address_width=16); s = AXILiteInterface(data_width=dw, address_width=16)
+    d = mk(AXILiteConverter, m, s)
+    h = HwCheck(f"AXILiteConverter({dw}->{dw})", d, master_side_inputs(m) + slave_side_inputs(s))
+    V = h.v
+    for c in ("aw", "w", "ar"):
+        f, t = getattr(m, c), getattr(s, c)
+        h.ensure(f"ens.{c}", z3.And(V(t.valid) == V(f.valid), V(f.ready) == V(t.ready), *[V(x) == V(y) for x, y in zip(pay(t), pay(f))]))
+    for c in ("b", "r"):
+        f, t = getattr(s, c), getattr(m, c)
+        h.ensure(f"ens.{c}", z3.And(V(t.valid) == V(f.valid), V(f.ready) == V(t.ready), *[V(x) == V(y) for x, y in zip(pay(t), pay(f))]))
+    h.cover("cover.w", fire(h, s.w), depth=2)
+    h.functions = ["litex.soc.interconnect.axi.axi_lite.AXILiteConverter.__init__ (ratio 1)"]
+    return h
+
+def c_axil2csr_w(dw=8, aw=14):
+    """AXILite2CSR at CSR data width dw (the bridge requires the AXI-Lite bus to have the same width): word address = byte address // (dw/8)"""
+    SH = (dw // 8).bit_length() - 1; NB = dw // 8; CA = aw - SH
+    ax = AXILiteInterface(data_width=dw, address_width=aw); cs = csr_bus.Interface(data_width=dw, address_width=CA)
+    d = mk(AXILite2CSR, ax, cs)
+    h = HwCheck(f"AXILite2CSR(dw={dw})", d, master_side_inputs(ax) + [cs.dat_r])
+    V = h.v
+    for ch in ("aw", "w", "ar"): src_env(h, getattr(ax, ch), ch)
+    F = lambda ep: fire(h, ep)
+    awf, wf, arf, rf, bf = F(ax.aw), F(ax.w), F(ax.ar), F(ax.r), F(ax.b)
+    wa = lambda sig: z3.Extract(aw - 1, SH, V(sig))
+    wadr = h.ghost("wadr", CA); aw_first = h.ghost("aw_first", 1)
+    cur_wadr = z3.If(b(aw_first), wadr, wa(ax.aw.addr))
+    h.ghost_next(aw_first, z3.If(z3.And(awf, z3.Not(wf)), K(1, 1), z3.If(wf, K(0, 1), aw_first)))
+    h.ghost_next(wadr, z3.If(z3.And(awf, z3.Not(wf)), wa(ax.aw.addr), wadr))
+    owe_b = h.ghost("owe_b", 1); owe_r = h.ghost("owe_r", 1)
+    h.ghost_next(owe_b, z3.If(wf, K(1, 1), z3.If(bf, K(0, 1), owe_b))); h.ghost_next(owe_r, z3.If(arf, K(1, 1), z3.If(rf, K(0, 1), owe_r)))
+    g_rd = h.ghost("g_rd", dw); p_re = h.prev("re", V(cs.re))
+    h.ghost_next(g_rd, z3.If(b(p_re), V(cs.dat_r), g_rd))
+    h.use_auto = True
+    try:
+        st, enc = d.fsm.state, d.fsm.encoding
+        for cand in [x for x in h.ts.state if x.nbits == CA]: h.hint(f"wait.adr{cand.duid}", z3.Implies(eqc(V(st), enc["WAIT-FOR-WRITE-DATA"]), V(cand) == wadr))
+        for cand in [x for x in h.ts.state if x.nbits == dw]: h.hint(f"send.dat{cand.duid}", z3.Implies(eqc(V(st), enc["SEND-READ-RESPONSE"]), V(cand) == g_rd))
+        h.hint("latch", eqc(V(st), enc["LATCH-READ-RESPONSE"]) == b(p_re))
+        h.hint("owe_r.st", b(owe_r) == z3.Or(eqc(V(st), enc["LATCH-READ-RESPONSE"]), eqc(V(st), enc["SEND-READ-RESPONSE"])))
+        h.hint("owe_b.st", b(owe_b) == eqc(V(st), enc["SEND-WRITE-RESPONSE"]))
+        h.hint("aw_first.st", b(aw_first) == eqc(V(st), enc["WAIT-FOR-WRITE-DATA"]))
+        h.hint("st<n", ult(V(st), len(enc)))
+    except (AttributeError, KeyError, TypeError): pass
+    h.ensure("ens.csr.we", b(V(cs.we)) == z3.And(wf, V(ax.w.strb) != K(0, NB)))
+    h.ensure("ens.csr.we.addr", z3.Implies(b(V(cs.we)), z3.And(V(cs.adr) == cur_wadr, V(cs.dat_w) == V(ax.w.data))))
+    h.ensure("ens.csr.re", z3.And(b(V(cs.re)) == arf, z3.Implies(arf, V(cs.adr) == wa(ax.ar.addr))))
+    h.ensure("ens.csr.one-at-a-time", z3.Not(z3.And(b(V(cs.we)), b(V(cs.re)))))
+    h.ensure("ens.r", z3.Implies(b(V(ax.r.valid)), z3.And(b(owe_r), V(ax.r.data) == g_rd, V(ax.r.resp) == K(0, 2))))
+    h.ensure("ens.b", z3.Implies(b(V(ax.b.valid)), z3.And(b(owe_b), V(ax.b.resp) == K(0, 2))))
+    h.ensure("ens.w_needs_aw", z3.Implies(wf, z3.Or(awf, b(aw_first))))
+    src_guarantee(h, ax.b, "b"); src_guarantee(h, ax.r, "r")
+    h.respond("resp.read", z3.And(b(V(ax.ar.valid)), z3.Not(b(V(ax.aw.valid))), b(V(ax.r.ready)), b(V(ax.b.ready)), z3.Implies(b(aw_first), b(V(ax.w.valid)))), rf, 7)
+    h.respond("resp.write", z3.And(b(V(ax.aw.valid)), b(V(ax.w.valid)), z3.Not(b(V(ax.ar.valid))), b(V(ax.r.ready)), b(V(ax.b.ready))), bf, 5)
+    h.cover("cover.rd", rf, depth=6); h.cover("cover.we", b(V(cs.we)), depth=4)
+    h.functions = ["litex.soc.interconnect.axi.axi_lite_to_csr.AXILite2CSR.__init__", "litex.soc.interconnect.axi.axi_lite.axi_lite_to_simple"]
+    return h
+
+_cases3 = cases
+def cases(tier):
+    cs = _cases3(tier)
+    INIT = [0x11223344, 0xa5a5f00f, 0x00000000, 0xdeadbeef]
+    cs += [VCase("AXILiteSRAM(4x32,read_only)", c_axilsram_cfg, 4, True, INIT, False), VCase("AXILiteSRAM(4x32,init)", c_axilsram_cfg, 4, False, INIT, False),
+           VCase("AXILiteSRAM(4x32,Memory)", c_axilsram_cfg, 4, False, INIT, True), VCase("AXILiteSRAM(4x32,Memory,read_only)", c_axilsram_cfg, 4, True, INIT, True),
+           VCase("AXILiteSRAM(narrow Memory)", c_axilsram_narrow),
+           VCase("AXILite2AXI(dw=64,INCR)", c_axil2axi_w, 64, "INCR"), VCase("AXILite2AXI(dw=64,WRAP)", c_axil2axi_w, 64, "WRAP"),
+           VCase("AXILiteConverter(32->32)", c_axil_conv1, 32), VCase("AXILiteConverter(64->64)", c_axil_conv1, 64),
+           VCase("AXILiteDownConverter(64->32)", c_axil_down, 64, 32, timeout=1200),
+           VCase("AXILite2CSR(dw=8)", c_axil2csr_w, 8, 14), VCase("AXILite2CSR(dw=16)", c_axil2csr_w, 16, 14)]
+    if tier == "thorough": cs += [VCase("AXILiteDownConverter(64->16)", c_axil_down, 64, 16, timeout=1800), VCase("AXILite2CSR(dw=64)", c_axil2csr_w, 64, 14)]
+    return cs
+ASSUMPTIONS += ["AXILiteSRAM read_only: writes are accepted and answered OKAY but ignored (the property does not ask for an error response)"]
+
+# =========================================================================================================== 4. SoCBusHandler.add_adapter
+from litex.soc.integration.soc import SoCBusHandler
+from .C09_add_adapter import _views, BW
+
+def _build_adapter(itf, bus_kind, bus_dw, direction):
+    class Top(LiteXModule):
+        def __init__(self):
+            self.bus = SoCBusHandler(standard=bus_kind, data_width=bus_dw, address_width=32)
+            self.adapted = self.bus.add_adapter("dut", itf, direction)
+    d = mk(Top)
+    return d, d.adapted
+
+def _shape(d, ad, bus_kind, bus_dw):
+    want_cls = {"wishbone": wishbone.Interface, "axi-lite": AXILiteInterface, "axi": AXIInterface}[bus_kind]
+    ok = isinstance(ad, want_cls) and ad.data_width == bus_dw and ad.address_width == 32 and getattr(ad, "addressing", d.bus.addressing) == d.bus.addressing
+    return res("ens.shape", "ensures", OK if ok else VIOLATED, 0, "structural", got=f"{type(ad).__name__}/{ad.data_width}/{getattr(ad, 'addressing', None)}/{ad.address_width}")
+
+def _elab_failure(name, e):
+    import traceback
+    tb = [t for t in traceback.extract_tb(e.__traceback__) if "/litex/" in t.filename]
+    where = f"{tb[-1].filename.split('/litex/')[-1]}:{tb[-1].lineno} ({tb[-1].line})" if tb else ""
+    if isinstance(e, AssertionError):
+        return dict(results=[res("ens.refused", "ensures", OK, 0, "structural", info=f"configuration rejected by an assertion at {where} - nothing is built")], functions=["litex.soc.integration.soc.SoCBusHandler.add_adapter"], assumptions=[])
+    return dict(results=[res("ens.elaborates", "ensures", VIOLATED, 0, "native", info=f"{type(e).__name__}: {e} at {where}")], functions=["litex.soc.integration.soc.SoCBusHandler.add_adapter"], assumptions=[])
+
+def ahb_contract(h, d, a, w):
+    """AHB-Lite master port `a` -> Wishbone port `w`: every NONSEQ transfer becomes one Wishbone cycle on the same bytes (address, size -> byte lanes, write data on its lanes)"""
+    V = h.v
+    AW = len(a.addr); dw = len(a.wdata); NB = dw // 8; SH = NB.bit_length() - 1; shift = SH if w.addressing == "word" else 0
+    ready = b(V(a.readyout))
+    ctl = cat(V(a.addr), V(a.size), V(a.trans), V(a.write), V(a.sel), V(a.burst))
+    p_ctl = h.prev("ctl", ctl); p_nrdy = h.prev("nrdy", bv1(z3.Not(ready))); p_wdata = h.prev("wdata", V(a.wdata))
+    h.assume(z3.Implies(b(p_nrdy), ctl == p_ctl), "AHB master holds the address-phase signals of the next transfer while hready is low")
+    busy = h.ghost("busy", 1); gadr = h.ghost("gadr", AW); gsize = h.ghost("gsize", 3); gwr = h.ghost("gwr", 1)
+    accept = z3.And(ready, b(V(a.sel)), V(a.trans) == K(2, 2), ule(V(a.size), SH))
+    h.assume(z3.Implies(z3.And(b(p_nrdy), b(busy)), V(a.wdata) == p_wdata), "AHB master holds hwdata during the data phase while hready is low")
+    wb_req = z3.And(b(V(w.cyc)), b(V(w.stb))); wb_ack = z3.And(wb_req, b(V(w.ack)))
+    wblib.slave_legal(h, w)
+    h.ghost_next(busy, z3.If(accept, K(1, 1), z3.If(ready, K(0, 1), busy)))
+    for g, sig in ((gadr, a.addr), (gsize, a.size), (gwr, a.write)): h.ghost_next(g, z3.If(accept, V(sig), g))
+    acked = h.ghost("acked", 1); h.ghost_next(acked, z3.If(accept, K(0, 1), z3.If(wb_ack, K(1, 1), acked)))
+    grd = h.ghost("grd", dw); h.ghost_next(grd, z3.If(wb_ack, V(w.dat_r), grd))
+    lanes = K(0, NB)
+    for sz in range(SH + 1):
+        nbytes = 1 << sz
+        off = z3.Extract(SH - 1, 0, gadr) & K(((1 << SH) - 1) & ~(nbytes - 1), SH)
+        lanes = z3.If(gsize == K(sz, 3), K((1 << nbytes) - 1, NB) << zx(off, NB), lanes)
+    wadr_bytes = zx(V(w.adr), BW) << shift
+    h.ensure("ens.wb.req", z3.Implies(wb_req, z3.And(b(busy), z3.Not(b(acked)), (wadr_bytes & ~z3.BitVecVal(NB - 1, BW)) == (zx(gadr, BW) & ~z3.BitVecVal(NB - 1, BW)), V(w.we) == gwr, V(w.sel) == lanes,
+                                                    z3.Implies(b(gwr), V(w.dat_w) == V(a.wdata)), V(w.cyc) == V(w.stb))))
+    h.ensure("ens.wb.once", z3.Implies(z3.And(b(busy), b(acked)), z3.Not(wb_req)))
+    h.ensure("ens.wait", z3.Implies(z3.And(b(busy), z3.Not(b(acked))), z3.And(z3.Not(ready), wb_req)))
+    h.ensure("ens.done", z3.Implies(z3.And(b(busy), b(acked)), z3.And(ready, z3.Implies(z3.Not(b(gwr)), V(a.rdata) == grd))))
+    h.ensure("ens.idle", z3.Implies(z3.Not(b(busy)), z3.And(ready, z3.Not(wb_req), z3.Not(b(V(a.resp))))))
+    h.ensure_seq("ens.wb.stable", lambda at: z3.Implies(at(z3.And(wb_req, z3.Not(b(V(w.ack)))), 0), z3.And(at(wb_req, 1), at(cat(V(w.adr), V(w.we), V(w.sel)), 1) == at(cat(V(w.adr), V(w.we), V(w.sel)), 0))))
+    h.respond("resp.done", b(V(w.ack)), ready, 2)
+    try:
+        br = _subs(d, ahb.AHB2Wishbone)[0]; st, enc = br.fsm.state, br.fsm.encoding
+        h.hint("data", eqc(V(st), enc["DATA-PHASE"]) == z3.And(b(busy), z3.Not(b(acked))))
+        h.hint("regs", z3.Implies(b(busy), z3.And((wadr_bytes & ~z3.BitVecVal(NB - 1, BW)) == (zx(gadr, BW) & ~z3.BitVecVal(NB - 1, BW)), V(w.we) == gwr, V(w.sel) == lanes)))
+        h.hint("rdata", z3.Implies(z3.And(b(busy), b(acked)), V(a.rdata) == grd))
+        h.hint("size", z3.Implies(b(busy), ule(gsize, SH)))
+    except (AttributeError, KeyError, TypeError, IndexError): pass
+    h.use_auto = True
+    h.cover("cover.read", z3.And(b(busy), b(acked), z3.Not(b(gwr))), depth=4)
+    h.cover("cover.write8", z3.And(wb_ack, b(gwr), gsize == K(0, 3)), depth=4)
+    h.bmc_depth = 8
+
+def axi2axil_contract(h, d, m, s):
+    """AXI master port -> AXI-Lite port (slaves with one read outstanding that take write data with/after its address): beat k of a burst is one AXI-Lite access at the AMBA
+    address of beat k carrying the master's k-th W beat unchanged (byte lanes preserved), read data returned unchanged"""
+    V = h.v; F = lambda ep: fire(h, ep)
+    AW = len(m.aw.addr); DW = len(m.w.data); NB = DW // 8; SH = NB.bit_length() - 1; IDW = len(m.aw.id); W = max(24, AW + 1)
+    src_env(h, m.aw, "m.aw"); src_env(h, m.ar, "m.ar"); st_w, _ = src_env(h, m.w, "m.w")
+    p_wlast = h.prev("mwlast", V(m.w.last))
+    h.assume(z3.Implies(b(st_w), V(m.w.last) == p_wlast), "AXI channel source holds valid and payload until ready (W last flag)")
+    for ch in (m.aw, m.ar):
+        h.assume(z3.Implies(b(V(ch.valid)), _burst_legal(W, V(ch.addr), V(ch.len), V(ch.size), V(ch.burst), SH)), "burst requests are AXI-legal (size within the bus; WRAP: 2/4/8/16 beats, aligned start; INCR within a 4KB page)")
+    src_env(h, s.r, "s.r"); src_env(h, s.b, "s.b")
+    mode = h.ghost("mode", 2); gaddr = h.ghost("gaddr", AW); glen = h.ghost("glen", 8); gsize = h.ghost("gsize", 3); gtype = h.ghost("gtype", 2); gid = h.ghost("gid", IDW)
+    na = h.ghost("na", 9); nr = h.ghost("nr", 9); nw = h.ghost("nw", 9)
+    idle, rd, wr = mode == K(0, 2), mode == K(1, 2), mode == K(2, 2)
+    ar_f, aw_f = F(m.ar), F(m.aw)
+    s_arf, s_awf, s_wf, s_rf, m_rf, m_bf, m_wf = F(s.ar), F(s.aw), F(s.w), F(s.r), F(m.r), F(m.b), F(m.w)
+    L9 = zx(glen, 9)
+    rd_done = z3.And(rd, m_rf, nr == L9); wr_done = z3.And(wr, m_bf)
+    h.ghost_next(mode, z3.If(idle, z3.If(ar_f, K(1, 2), z3.If(aw_f, K(2, 2), K(0, 2))), z3.If(z3.Or(rd_done, wr_done), K(0, 2), mode)))
+    for g, far, faw in ((gaddr, m.ar.addr, m.aw.addr), (glen, m.ar.len, m.aw.len), (gsize, m.ar.size, m.aw.size), (gtype, m.ar.burst, m.aw.burst), (gid, m.ar.id, m.aw.id)):
+        h.ghost_next(g, z3.If(z3.And(idle, ar_f), V(far), z3.If(z3.And(idle, aw_f), V(faw), g)))
+    start = z3.And(idle, z3.Or(ar_f, aw_f))
+    h.ghost_next(na, z3.If(start, K(0, 9), z3.If(z3.Or(s_arf, s_awf), na + 1, na)))
+    h.ghost_next(nr, z3.If(start, K(0, 9), z3.If(m_rf, nr + 1, nr)))
+    h.ghost_next(nw, z3.If(start, K(0, 9), z3.If(s_wf, nw + 1, nw)))
+    h.assume(z3.Implies(z3.And(wr, b(V(m.w.valid))), b(V(m.w.last)) == (nw == L9)), "AXI master sends len+1 W beats, last on the final one")
+    h.assume(z3.Implies(s_arf, na == nr), "scenario: the AXI-Lite slave has at most one read outstanding (it accepts an address only when it owes no data)")
+    h.assume(z3.Implies(s_wf, z3.Or(z3.UGT(na, nw), s_awf)), "scenario: the AXI-Lite slave accepts write data only with or after the matching write address")
+    h.assume(z3.Implies(b(V(s.r.valid)), z3.And(rd, z3.UGT(na, nr))), "AXI-Lite slave returns R only for an accepted, unanswered AR")
+    mask = z3.BitVecVal((1 << AW) - 1, W)
+    want = lambda n_: z3.LShR((zx(gaddr, W) + _burst_off(W, gaddr, glen, gsize, gtype, n_)) & mask, zx(gsize, W))
+    got = lambda a_: z3.LShR(zx(V(a_), W), zx(gsize, W))
+    h.ensure("ens.rd.ar", z3.Implies(b(V(s.ar.valid)), z3.And(rd, z3.ULE(na, L9), got(s.ar.addr) == want(na))))
+    h.ensure("ens.wr.aw", z3.Implies(b(V(s.aw.valid)), z3.And(wr, z3.ULE(na, L9), got(s.aw.addr) == want(na))))
+    h.ensure("ens.wr.w", z3.And(z3.Implies(b(V(s.w.valid)), z3.And(wr, b(V(m.w.valid)), V(s.w.data) == V(m.w.data), V(s.w.strb) == V(m.w.strb), z3.ULE(nw, L9))), s_wf == m_wf))
+    h.ensure("ens.rd.r", z3.Implies(b(V(m.r.valid)), z3.And(rd, b(V(s.r.valid)), V(m.r.data) == V(s.r.data), V(m.r.id) == gid, b(V(m.r.last)) == (nr == L9))))
+    h.ensure("ens.accept", z3.And(z3.Implies(z3.Or(ar_f, aw_f), idle), z3.Not(z3.And(ar_f, aw_f))))
+    try:
+        a2l = _subs(d, AXI2AXILite)[0]
+        st, enc = a2l.fsm.state, a2l.fsm.encoding; S = lambda n_: eqc(V(st), enc[n_])
+        buf = L(a2l, "ax_buffer"); b2b = L(a2l, "ax_burst2beat"); cd = L(a2l, "_cmd_done"); bc, bo = L(b2b, "beat_count"), L(b2b, "beat_offset"); bs = buf.source
+        h.hint("st", ult(V(st), len(enc)))
+        h.hint("idle", S("IDLE") == idle); h.hint("read", S("READ") == rd); h.hint("write", z3.Or(S("WRITE"), S("WRITE-RESP")) == wr)
+        h.hint("buf", b(V(bs.valid)) == z3.Not(idle))
+        h.hint("buf.req", z3.Implies(z3.Not(idle), z3.And(V(bs.addr) == gaddr, V(bs.len) == glen, V(bs.size) == gsize, V(bs.burst) == gtype, V(bs.id) == gid)))
+        h.hint("legal", z3.Implies(z3.Not(idle), _burst_legal(W, gaddr, glen, gsize, gtype, SH)))
+        nmin = z3.If(z3.ULE(na, L9), na, L9)
+        h.hint("count", z3.Implies(z3.Not(idle), zx(V(bc), 9) == nmin))
+        h.hint("offset", z3.Implies(z3.Not(idle), sx(V(bo), W) == _burst_off(W, gaddr, glen, gsize, gtype, nmin)))
+        h.hint("idle.b2b", z3.Implies(idle, z3.And(V(bc) == K(0, 8), V(bo) == K(0, V(bo).size()))))
+        h.hint("na<=len+1", z3.ULE(na, L9 + 1))
+        h.hint("cmd_done", z3.Implies(z3.Not(idle), b(V(cd)) == (na == L9 + 1)))
+        h.hint("rd.nr", z3.Implies(rd, z3.And(z3.ULE(nr, na), z3.ULE(na, nr + 1), z3.ULE(nr, L9))))
+        h.hint("wr.nw", z3.Implies(wr, z3.And(z3.ULE(nw, na), z3.ULE(nw, L9 + 1))))
+        h.hint("wresp", z3.Implies(wr, S("WRITE-RESP") == (nw == L9 + 1)))
+    except (AttributeError, KeyError, TypeError, IndexError) as e: h.note = f"hints skipped: {e!r}"; h.use_auto = True
+    h.cover("cover.rd.burst", z3.And(rd_done, glen == K(2, 8)), depth=12); h.cover("cover.wr.burst", z3.And(wr_done, glen == K(1, 8)), depth=12)
+    h.bmc_depth = 14
+
+def axil2axi_contract(h, s_, a):
+    V = h.v; SH = (len(a.w.data) // 8).bit_length() - 1
+    for ch in ("aw", "ar"):
+        f, t = getattr(s_, ch), getattr(a, ch)
+        h.ensure(f"ens.{ch}", z3.And(V(t.valid) == V(f.valid), V(f.ready) == V(t.ready), V(t.addr) == V(f.addr), V(t.len) == K(0, 8), V(t.size) == K(SH, 3), ule(V(t.burst), 2), V(t.lock) == K(0, V(t.lock).size())))
+    h.ensure("ens.w", z3.And(V(a.w.valid) == V(s_.w.valid), V(s_.w.ready) == V(a.w.ready), V(a.w.data) == V(s_.w.data), V(a.w.strb) == V(s_.w.strb), b(V(a.w.last))))
+    h.ensure("ens.b", z3.And(V(s_.b.valid) == V(a.b.valid), V(a.b.ready) == V(s_.b.ready), V(s_.b.resp) == V(a.b.resp)))
+    h.ensure("ens.r", z3.And(V(s_.r.valid) == V(a.r.valid), V(a.r.ready) == V(s_.r.ready), V(s_.r.resp) == V(a.r.resp), V(s_.r.data) == V(a.r.data)))
+    h.cover("cover.rd", z3.And(b(V(a.ar.valid)), b(V(a.ar.ready))), depth=2)
+
+def axi_width_contract(h, d, m, s):
+    """AXI width conversion selected by add_adapter: address channels forwarded in the same cycle onto the same bytes: same wide word at the start, same number of bytes for full-width bursts,
+    ids/burst kind kept; the data paths of the converters are under contract in C10"""
+    V = h.v
+    NBm = len(m.w.strb); NBs = len(s.w.strb); big = max(NBm, NBs); SHm = NBm.bit_length() - 1; SHs = NBs.bit_length() - 1; LBIG = big.bit_length() - 1
+    AWd = len(m.aw.addr)
+    for ch in ("aw", "ar"):
+        f, t = getattr(m, ch), getattr(s, ch)
+        full = V(f.size) == K(SHm, 3)
+        bytes_m = (zx(V(f.len), 16) + 1) << SHm; bytes_s = (zx(V(t.len), 16) + 1) << zx(V(t.size), 16)
+        if NBm > NBs: fits = z3.BoolVal(True) if True else None
+        h.ensure(f"ens.{ch}.ctrl", z3.And(V(t.valid) == V(f.valid), V(f.ready) == V(t.ready), V(t.id) == V(f.id)))
+        h.ensure(f"ens.{ch}.word", z3.Implies(b(V(f.valid)), z3.Extract(AWd - 1, LBIG, V(t.addr)) == z3.Extract(AWd - 1, LBIG, V(f.addr))))                      # the burst starts in the same wide word
+        if NBm > NBs:   # down: (len+1)*ratio beats of the narrow width (as long as the result fits the 8-bit len field)
+            nofl = z3.ULE((zx(V(f.len), 16) + 1) * (NBm // NBs), z3.BitVecVal(256, 16))
+            h.ensure(f"ens.{ch}.bytes", z3.Implies(z3.And(b(V(f.valid)), full, nofl), z3.And(bytes_s == bytes_m, V(t.size) == K(SHs, 3))))
+            h.ensure(f"ens.{ch}.burst", z3.Implies(b(V(f.valid)), V(t.burst) == z3.If(V(f.burst) == K(0, 2), K(1, 2), V(f.burst))))
+        else:           # up: full-width narrow bursts whose beat count is a multiple of the ratio, starting on a wide word
+            r = NBs // NBm
+            whole = z3.And((zx(V(f.len), 16) + 1) & z3.BitVecVal(r - 1, 16) == 0, z3.Extract(LBIG - 1, 0, V(f.addr)) == K(0, LBIG))
+            h.ensure(f"ens.{ch}.bytes", z3.Implies(z3.And(b(V(f.valid)), full, whole), z3.And(bytes_s == bytes_m, V(t.size) == K(SHs, 3))))
+            h.ensure(f"ens.{ch}.burst", z3.Implies(b(V(f.valid)), V(t.burst) == V(f.burst)))
+    h.ensure("ens.b", z3.And(V(m.b.valid) == V(s.b.valid), V(s.b.ready) == V(m.b.ready), V(m.b.resp) == V(s.b.resp), V(m.b.id) == V(s.b.id)))
+    h.cover("cover.aw", z3.And(fire(h, s.aw), V(m.aw.len) == K(3, 8), V(m.aw.size) == K(SHm, 3)), depth=2)
+    h.use_auto = False
+
+def lane_contract(h, d, master, slave, down_aligned):
+    """wishbone / AXI-Lite chains (as C09_add_adapter): every byte written on the slave side is a selected byte of the master's current write at the same byte address; reads stay inside the master's word"""
+    from .C09_add_adapter import _kind
+    V = h.v
+    if _kind(master) == "wishbone": wblib.master_holds(h, master, "m")
+    else:
+        for ch in ("aw", "w", "ar"): src_env(h, getattr(master, ch), "m." + ch)
+        if down_aligned:
+            nbm = len(master.w.strb)
+            for a_ in (master.aw.addr, master.ar.addr): h.assume(z3.Extract(nbm.bit_length() - 2, 0, V(a_)) == 0, "AXI-Lite master addresses are aligned to its data width when a down-converter is in the chain (unaligned addresses: finding of AXILiteDownConverter)")
+    if _kind(slave) == "wishbone": wblib.slave_legal(h, slave, "s")
+    else:
+        for ch in ("b", "r"): src_env(h, getattr(slave, ch), "s." + ch)
+    m, s = _views(h, master), _views(h, slave)
+    NBm, NBs = m["nb"], s["nb"]
+    lanes = []
+    for j in range(NBs):
+        off = s["wba"] + j - m["wba"]
+        pick_sel = z3.BoolVal(False); pick_dat = z3.BitVecVal(0, 8)
+        for i in range(NBm):
+            hit = off == z3.BitVecVal(i, BW)
+            pick_sel = z3.If(hit, z3.Extract(i, i, m["sel"]) == K(1, 1), pick_sel); pick_dat = z3.If(hit, z3.Extract(8 * i + 7, 8 * i, m["dat"]), pick_dat)
+        lanes.append(z3.Implies(z3.Extract(j, j, s["sel"]) == K(1, 1), z3.And(z3.ULT(off, z3.BitVecVal(NBm, BW)), pick_sel, z3.Extract(8 * j + 7, 8 * j, s["dat"]) == pick_dat)))
+    both = z3.And(s["wdat"], s["wadr"])
+    h.ensure("ens.write.bytes", z3.Implies(both, z3.And(m["wdat"], m["wadr"], *lanes)))
+    inside_w = z3.ULT(s["wba"] - m["wba"], z3.BitVecVal(NBm, BW)) if NBm >= NBs else z3.ULT(m["wba"] - s["wba"], z3.BitVecVal(NBs, BW))
+    h.ensure("ens.write.addr", z3.Implies(s["wadr"], z3.And(m["wadr"], inside_w)))
+    inside = z3.ULT(s["rba"] - m["rba"], z3.BitVecVal(NBm, BW)) if NBm >= NBs else z3.ULT(m["rba"] - s["rba"], z3.BitVecVal(NBs, BW))
+    h.ensure("ens.read.addr", z3.Implies(s["radr"], z3.And(m["radr"], inside)))
+    h.ensure("ens.write.data-needs-master", z3.Implies(s["wdat"], m["wdat"]))
+    if _kind(master) == "wishbone" and _kind(slave) == "wishbone":
+        h.ensure("ens.burst-tags", z3.Implies(z3.And(b(V(slave.cyc)), b(V(slave.stb)), V(slave.cti) != K(0, 3)), V(master.cti) != K(0, 3)))      # a burst tag on the slave side only if the master is bursting
+    h.use_auto = True
+    h.cover("cover.write", both, depth=6); h.cover("cover.read", s["radr"], depth=6)
+    if _kind(master) == "wishbone": h.cover("cover.burst-beat", z3.And(both, V(master.cti) == K(2, 3)), depth=6)
+    h.bmc_depth = 8
+
+def _mk_if(kind, dw, addressing="word", bursting=False):
+    if kind == "wishbone": return wishbone.Interface(data_width=dw, address_width=32, addressing=addressing, bursting=bursting)
+    if kind == "axi-lite": return AXILiteInterface(data_width=dw, address_width=32)
+    if kind == "axi":      return AXIInterface(data_width=dw, address_width=32, id_width=2, bursting=bursting)
+    if kind == "ahb":      return ahb.AHBInterface(data_width=dw, address_width=32)
+    raise ValueError(kind)
+
+def _ins_m(itf, kind):
+    if kind == "wishbone": return wblib.m_inputs(itf)
+    if kind == "axi": return axi_master_inputs(itf)
+    if kind == "axi-lite": return master_side_inputs(itf)
+    if kind == "ahb": return [itf.addr, itf.burst, itf.mastlock, itf.prot, itf.size, itf.trans, itf.wdata, itf.write, itf.sel]
+def _ins_s(itf, kind):
+    if kind == "wishbone": return wblib.s_inputs(itf)
+    if kind == "axi": return axi_slave_inputs(itf)
+    if kind == "axi-lite": return slave_side_inputs(itf)
+
+def c_adapter_ext(i_kind, i_dw, i_addr, bus_kind, bus_dw, direction, bursting=False):
+    itf = _mk_if(i_kind, i_dw, i_addr, bursting)
+    name = f"add_adapter({i_kind}/{i_dw}/{i_addr}{'/bursting' if bursting else ''}->{bus_kind}/{bus_dw},{direction})"
+    try: d, ad = _build_adapter(itf, bus_kind, bus_dw, direction)
+    except Exception as e: return _elab_failure(name, e)
+    pre = [_shape(d, ad, bus_kind, bus_dw)]
+    if bursting and i_kind == bus_kind and i_dw != bus_dw:
+        pre.append(res("ens.bursting-kept", "ensures", OK if getattr(ad, "bursting", None) == bursting else VIOLATED, 0, "structural", got=str(getattr(ad, "bursting", None))))
+    (master, mk_), (slave, sk_) = ((itf, i_kind), (ad, bus_kind)) if direction == "m2s" else ((ad, bus_kind), (itf, i_kind))
+    h = HwCheck(name, d, _ins_m(master, mk_) + _ins_s(slave, sk_))
+    pair = (mk_, sk_)
+    if pair == ("ahb", "wishbone"): ahb_contract(h, d, master, slave)
+    elif pair == ("axi", "wishbone") and master.data_width == slave.data_width: axi2wb_contract(h, d, master, slave, 0, False)
+    elif pair == ("wishbone", "axi") and master.data_width == slave.data_width: wb2axi_contract(h, d, master, slave, 0)
+    elif pair == ("axi", "axi-lite") and master.data_width == slave.data_width: axi2axil_contract(h, d, master, slave)
+    elif pair == ("axi-lite", "axi") and master.data_width == slave.data_width: axil2axi_contract(h, master, slave)
+    elif pair == ("axi", "axi"): axi_width_contract(h, d, master, slave)
+    elif "axi" not in pair and "ahb" not in pair: lane_contract(h, d, master, slave, mk_ == "axi-lite" and master.data_width > min(bus_dw, i_dw))
+    else: raise ValueError(f"no contract for the chain {pair} with a width change")
+    # the right converter / bridge classes were instantiated, in the right direction (structural)
+    want = {("ahb", "wishbone"): ahb.AHB2Wishbone, ("axi", "wishbone"): AXI2Wishbone, ("wishbone", "axi"): Wishbone2AXI, ("axi", "axi-lite"): AXI2AXILite, ("axi-lite", "axi"): AXILite2AXI}.get(pair)
+    if want is not None: pre.append(res("ens.bridge-class", "ensures", OK if len(_subs(d, want)) == 1 else VIOLATED, 0, "structural", got=str([type(x).__name__ for _n, x in getattr(d.bus, "_submodules", [])])))
+    if pair == ("axi", "axi"):
+        cv = _subs(d, axi_pkg.AXIConverter)
+        okc = len(cv) == 1 and cv[0].master is master and cv[0].slave is slave and len(_subs(d, axi_pkg.AXIDownConverter if master.data_width > slave.data_width else axi_pkg.AXIUpConverter)) == 1
+        pre.append(res("ens.converter-direction", "ensures", OK if okc else VIOLATED, 0, "structural"))
+        idok = all(len(getattr(ad, c).id) == len(getattr(itf, c).id) for c in ("aw", "w", "b", "ar", "r"))
+        pre.append(res("ens.id-width-kept", "ensures", OK if idok else VIOLATED, 0, "structural"))
+    h.functions = ["litex.soc.integration.soc.SoCBusHandler.add_adapter", "(converters / bridges it instantiates: own contracts in C07 / C09 / C10)"]
+    h.pre_results = pre
+    return h
+
+GRID4 = [("ahb", 32, "byte", "wishbone", 32, "m2s"), ("ahb", 64, "byte", "wishbone", 64, "m2s"),
+         ("axi", 32, "byte", "wishbone", 32, "m2s"), ("wishbone", 32, "word", "axi", 32, "s2m"),
+         ("wishbone", 32, "word", "axi", 32, "m2s"), ("axi", 32, "byte", "wishbone", 32, "s2m"), ("wishbone", 32, "byte", "axi", 32, "m2s"),
+         ("axi", 32, "byte", "axi-lite", 32, "m2s"), ("axi-lite", 32, "byte", "axi", 32, "s2m"),
+         ("axi-lite", 32, "byte", "axi", 32, "m2s"), ("axi", 32, "byte", "axi-lite", 32, "s2m"), ("axi-lite", 64, "byte", "axi", 64, "m2s"),
+         ("axi", 64, "byte", "axi", 32, "m2s"), ("axi", 32, "byte", "axi", 64, "m2s"), ("axi", 32, "byte", "axi", 64, "s2m"), ("axi", 64, "byte", "axi", 32, "s2m"),
+         ("wishbone", 64, "word", "wishbone", 32, "m2s", True), ("wishbone", 32, "word", "wishbone", 64, "m2s", True), ("wishbone", 32, "byte", "wishbone", 32, "m2s", True),
+         ("wishbone", 32, "word", "axi-lite", 32, "m2s", True), ("axi", 64, "byte", "axi", 32, "m2s", True)]
+
+_cases4 = cases
+def cases(tier):
+    cs = _cases4(tier)
+    for c in GRID4:
+        cs.append(VCase(f"add_adapter({c[0]}/{c[1]}/{c[2]}{'/bursting' if len(c) > 6 and c[6] else ''}->{c[3]}/{c[4]},{c[5]})", c_adapter_ext, *c, timeout=900))
+    return cs
+ASSUMPTIONS += ["add_adapter (extension): AHB masters follow AHB-Lite (address phase held while hready is low); AXI chains use the environments of the AXI2Wishbone / Wishbone2AXI / AXI2AXILite contracts; "
+                "AXI width conversion: address channels and class / direction / id widths are checked here, the converters' data paths are C10's; chains that combine an AXI width change with a standard change are not in the grid"]
